@@ -168,7 +168,17 @@ impl Submissions {
     pub(crate) fn wait_for_submission(&self, waker: task::Waker) {
         log::trace!(waker:?; "adding future waiting on submission slot");
         let shared = &*self.shared;
+        #[cfg(not(a10_verif))]
         lock(&shared.blocked_futures).push(waker);
+        #[cfg(a10_verif)]
+        {
+            let mut blocked_futures = lock(&shared.blocked_futures);
+            crate::verif::sched_point(
+                crate::verif::LOCKED,
+                std::ptr::from_ref(&shared.blocked_futures).addr(),
+            );
+            blocked_futures.push(waker);
+        }
     }
 
     pub(crate) fn shared(&self) -> &Shared {
